@@ -236,6 +236,59 @@ def _malformed_pairs(gb, rng, tier):
     return cases
 
 
+def _evolved_pairs(gb, rng, tier):
+    """well-formed messages of a RICHER writer schema (an ignored field of every kind -- scalars, structs, containers of
+    structs -- written before a known field of the reader): decode vs decode_async of the reader, which both have to skip it"""
+    from . import genevo
+    sch = gb.schema
+    cfg = 'plain'
+    cases = []
+    k = 0
+    no_key = genevo.key_type_names(sch)
+    for tname in sch.names_in(cfg):
+        d = sch.types[tname]
+        if d['kind'] != 'struct' or tname in no_key or not d['fields']:
+            continue
+        ty = ('ref', tname)
+        for rep in range(2 if tier == 'quick' else 8):
+            W = sch.copy()
+            dw = W.types[tname]
+            used = {f['id'] for f in dw['fields']}
+            free = [i for i in genevo.NEW_IDS if i not in used]
+            cands = [t for t in genevo.NEW_FIELD_TYPES if genevo.usable(W, t)]
+            if not free or not cands:
+                continue
+            structy = [t for t in cands if t[0] == 'ref' or (t[0] in ('list', 'set', 'map') and any(x[0] == 'ref' for x in t[1:] if isinstance(x, tuple)))]
+            nt = rng.choice(structy) if structy and rep % 2 == 0 else rng.choice(cands)
+            pos = rng.randrange(len(dw['fields']))                         # never last: something known follows
+            nxt = dw['fields'][pos]['id']
+            # an id shortly below the next known field's id, so that the compact writer uses the SHORT (delta) form for that field:
+            # the reader then needs the ignored field's own id as the base, whatever it met while skipping
+            near = [i for i in range(max(1, nxt - 15), nxt) if i not in used]
+            nid = rng.choice(near) if near and rep % 3 != 2 else rng.choice(free)
+            nf = dict(id=nid, name='added', req='required', ty=nt, lit=None, default=None, const=None, doc=None, ann={}, idl_req='required')
+            dw['fields'].insert(pos, nf)
+            dw['fields'][pos + 1] = dict(dw['fields'][pos + 1], req='required') if not gengen.recursive_ty(W, dw['fields'][pos + 1]['ty']) else dw['fields'][pos + 1]
+            v = None
+            for _ in range(6):
+                v = gengen.gen_value(rng, W, ty, 3)
+                if any(fid == nf['id'] for fid, _x in (v if isinstance(v, list) else [])) or True:
+                    break
+            for proto in genrun.ASYNC_PROTOS:
+                k += 1
+                enc = genref.encode(W, ty, v, genrun.ref_proto(proto))
+                if len(enc) > 3000:
+                    continue
+                key = 'e%d' % k
+                mode = 'async:' + genrun.SCHEDULES[k % len(genrun.SCHEDULES)]
+                twin = dict(line=genrun.case_line('renc', cfg, tname, proto, mode, enc), cfg=cfg, type=tname, proto=proto, mode=mode, key=key,
+                            twin=True, nontrivial=True, model=False, evolved=gengen.ty_txt(nt))
+                first = dict(line=genrun.case_line('renc', cfg, tname, proto, 'sync', enc), cfg=cfg, type=tname, proto=proto, mode='sync', key=key,
+                             nontrivial=True, model=False, evolved=gengen.ty_txt(nt), companions=[twin])
+                cases += [first, twin]
+    return cases
+
+
 def _mem_kind(out):
     m = MEM_RE.match(out or '')
     return m.group(1) if m else 'crash'
@@ -297,11 +350,12 @@ def run_c12g(chk, replay=None, prop='C12'):
         mal = [(c, o) for c, o in zip(cases, outs) if c.get('malformed') and not c.get('twin')]
         return dict(stats, malformed_inputs=len(mal), malformed_sync_errors=sum(1 for _, o in mal if (o or '').startswith('err')),
                     malformed_kinds={k: sum(1 for c, _ in mal if c['malformed'] == k) for k in ('trunc', 'incr')})
-    return gencheck.run_check(chk, replay, prop, lambda gb, rng, tier: _pairs(gb, rng, tier, second) + _malformed_pairs(gb, rng, tier),
+    return gencheck.run_check(chk, replay, prop, lambda gb, rng, tier: _pairs(gb, rng, tier, second) + _evolved_pairs(gb, rng, tier) + _malformed_pairs(gb, rng, tier),
                               lambda gb, c, o: [], post=_post_c12g(chk, stats), extra_dist=extra,
                               rule="every emitted type x generated values x {binary, binary_le, compact}: decode_async under a scripted schedule "
                                    "(one chunk, byte by byte, 3/7-byte chunks, Pending before every hand-out) vs decode on the same bytes with "
-                                   "trailing bytes: same value, same number of bytes taken from the stream; plus, per struct / union, reference "
+                                   "trailing bytes: same value, same number of bytes taken from the stream; the same for messages of a richer writer schema (an "
+                                   "ignored field of any kind, incl. structs and containers of structs, before a known field); plus, per struct / union, reference "
                                    "encodings truncated at sampled offsets or with one byte incremented (counts, lengths, type codes, ids): an "
                                    "error whenever decode reports one, the same value otherwise; async lines are answered by the model of the "
                                    "decode_async templates (GenAsync.v)")
